@@ -9,7 +9,7 @@ T = {
          "C01 (roundtrip sweep at B=1,2,4: many chunk boundaries, so a 0xFF first byte occurs; decrypt(encrypt(P)) != P assert and dec model mismatch)"),
  "C02": ("AesCBC_Enc keeps a pointer to the previous ciphertext block inside the caller's buffer instead of copying it into iv[]",
          "CBC encryption where a worker gets a second chunk that reaches the last slot of its buffer (n >= (T+1)*chunk-16)",
-         "C02 (roundtrip: real file vs Spec.Wenc.encryptSpec, `senc` oracle) ; also C10 via the buffer-reuse cases of the mode suite"),
+         "C02 (roundtrip: real file vs Spec.Wenc.wenc, `senc` oracle) ; also C10 via the buffer-reuse cases of the mode suite"),
  "C03": ("buffergroup::buffer_update publishes READY early and then decides INV from an unlocked re-read of the state (TOCTOU)",
          "the worker transforms the whole freshly loaded chunk and hands it back between the I/O thread's set_ready(true) and its cmpstate(READY): needs a short final chunk and that interleaving",
          "C03 (scheduled harness: output differs from the sequential reference; simulation conformance against Model/Pipe also rejects the interval)"),
